@@ -400,6 +400,12 @@ pub fn run_sim<F: Future>(seed: u64, f: F) -> F::Output {
         .enable_all()
         .start_paused(true)
         .max_blocking_threads(1)
+        // Tasks woken from the blocking thread land in the remote queue, tasks woken on the
+        // scheduler thread in the local one; which queue is polled first depends on the tick
+        // count modulo this interval, and ticks also count (real-time dependent) park/unpark
+        // cycles. With 1 the remote queue is always polled first.
+        .global_queue_interval(1)
+        .event_interval(1)
         .rng_seed(tokio::runtime::RngSeed::from_bytes(&seed.to_le_bytes()))
         .build()
         .expect("runtime");
